@@ -34,7 +34,9 @@
 //! * `"mg"`: the real `<State as AbstractDomain>::merge` in both orders on two states produced by `update_def` sequences.
 //! * `"cs"`: the real `Context::update_call_stub` for one of the extern symbols of the harness project after a sequence.
 //! * `"sc"`: one call of the real `Context::specialize_conditional(state, condition, block, is_true)` on a
-//!   constructed register state: the specialised state or `null` ("unsatisfiable").
+//!   constructed register state: the specialised state or `null` ("unsatisfiable"). `hints` = concrete register
+//!   values proposed to the driver's semantic check (solutions of `(x OP k) == c` and their neighbours for
+//!   comparisons with a bitwise / arithmetic / shift operator inside); the driver uses those inside γ of the register.
 use cwe_checker_lib::abstract_domain::{
     AbstractDomain, AbstractIdentifier, AbstractLocation, DataDomain, IntervalDomain, RegisterDomain, SizedDomain,
 };
@@ -286,6 +288,9 @@ impl<'a> Gen<'a> {
         }
     }
     fn cmp(&mut self) -> Expression {
+        if self.rng.chance(1, 4) {
+            return self.cmp_nested();
+        }
         if self.rng.chance(1, 2) {
             return self.cmp_boundary();
         }
@@ -297,6 +302,24 @@ impl<'a> Gen<'a> {
             _ => (e_var(self.reg(), 8), e_const(self.small(), 8)),
         };
         e_bin(op, l, r)
+    }
+    /// `(x OP k) cmp c` / `(x OP y) cmp c` with a bitwise / arithmetic / shift operator inside the comparison
+    fn cmp_nested(&mut self) -> Expression {
+        let op = *self.rng.pick(&CMP_OPS);
+        let inner = *self.rng.pick(&NEST_OPS);
+        let w = *self.rng.pick(&[8u64, 8, 4, 1]);
+        let (k, c) = *self.rng.pick(&nest_pairs(inner));
+        let x = cmp_operand(self.reg(), w);
+        let is_shift = matches!(inner, BinOpType::IntLeft | BinOpType::IntRight | BinOpType::IntSRight);
+        let second = if self.rng.chance(1, 4) && !is_shift { cmp_operand(self.reg(), w) } else { e_const(k & mask_w(w), w) };
+        let lhs = e_bin(inner, x, second);
+        let c = if self.rng.chance(1, 6) { self.small() } else { c } & mask_w(w);
+        let e = if self.rng.chance(1, 2) { e_bin(op, e_const(c, w), lhs) } else { e_bin(op, lhs, e_const(c, w)) };
+        if self.rng.chance(1, 4) {
+            e_un(UnOpType::BoolNegate, e)
+        } else {
+            e
+        }
     }
     /// a comparison of a (possibly truncated) register with a constant at or next to a boundary of the
     /// operand width, constant on either side, possibly negated
@@ -329,6 +352,15 @@ impl<'a> Gen<'a> {
             18 => {
                 let op = *self.rng.pick(&[BinOpType::IntCarry, BinOpType::IntSCarry, BinOpType::IntSBorrow]);
                 e_bin(op, self.operand(), self.operand())
+            }
+            19 if self.rng.chance(1, 2) => {
+                // a bare 1-byte bitwise operation as condition (a boolean: bit 0)
+                let op = *self.rng.pick(&[BinOpType::IntAnd, BinOpType::IntAnd, BinOpType::IntXOr]);
+                let x = e_sub(0, 1, e_var(self.reg(), 8));
+                match op {
+                    BinOpType::IntAnd => e_bin(op, x, e_const(1, 1)),
+                    _ => e_bin(BinOpType::IntAnd, e_bin(op, x, e_const(self.rng.below(4), 1)), e_const(1, 1)),
+                }
             }
             _ => self.cmp(),
         }
@@ -650,6 +682,66 @@ fn boundary_consts(w: u64) -> Vec<u64> {
     vec![0, 1, m, 2, min, min + 1, min - 1, min - 2]
 }
 
+
+/// operators nested inside a comparison: `(x OP k) cmp c`
+const NEST_OPS: [BinOpType; 9] = [
+    BinOpType::IntAnd,
+    BinOpType::IntOr,
+    BinOpType::IntXOr,
+    BinOpType::IntAdd,
+    BinOpType::IntSub,
+    BinOpType::IntMult,
+    BinOpType::IntLeft,
+    BinOpType::IntRight,
+    BinOpType::IntSRight,
+];
+
+/// (k, c) pairs for `(x OP k) cmp c` such that satisfying values of `x` exist that differ from `c` (and from `k`)
+fn nest_pairs(op: BinOpType) -> Vec<(u64, u64)> {
+    match op {
+        BinOpType::IntAnd => vec![(0xff, 4), (4, 4), (1, 0), (0xf0, 0x30), (0xff, 0), (0x80, 0x80), (1, 1), (6, 2)],
+        BinOpType::IntOr => vec![(1, 5), (0xf, 0xff), (8, 8), (0x10, 0x13)],
+        BinOpType::IntXOr => vec![(0xff, 4), (1, 0), (5, 5)],
+        BinOpType::IntAdd => vec![(1, 0), (3, 10), (0x80, 0x7f)],
+        BinOpType::IntSub => vec![(1, 0), (5, 0xfb), (2, 7)],
+        BinOpType::IntMult => vec![(2, 8), (3, 9), (4, 0)],
+        BinOpType::IntLeft => vec![(1, 8), (4, 0x30), (3, 0)],
+        BinOpType::IntRight | BinOpType::IntSRight => vec![(1, 2), (4, 3), (2, 0)],
+        _ => vec![(1, 1)],
+    }
+}
+
+/// values of `x` that (may) satisfy `(x OP k) == c` and neighbours that do not, on `w` bytes
+fn nest_candidates(rng: &mut Rng, op: BinOpType, k: u64, c: u64, w: u64) -> Vec<u64> {
+    let m = mask_w(w);
+    let mut v: Vec<u64> = match op {
+        BinOpType::IntAnd => vec![c, c | (rng.next() & !k), c | !k, c | 0x100, c ^ 1, k, !0, 0, c | (1 << (8 * w - 1)) & !k],
+        BinOpType::IntOr => vec![c & !k, c, c & !(rng.next() & k), 0, c ^ 1],
+        BinOpType::IntXOr => vec![c ^ k, (c ^ k).wrapping_add(1), c, k],
+        BinOpType::IntAdd => vec![c.wrapping_sub(k), c.wrapping_sub(k).wrapping_add(1), c.wrapping_sub(k).wrapping_sub(1), c],
+        BinOpType::IntSub => vec![c.wrapping_add(k), c.wrapping_add(k).wrapping_add(1), c.wrapping_add(k).wrapping_sub(1), c],
+        BinOpType::IntMult => {
+            let mut t = vec![c, 0, 1];
+            if k != 0 {
+                t.push(c / k);
+                t.push((c / k).wrapping_add(1));
+                // other solutions modulo 2^(8w): add 2^(8w) / gcd-part
+                if k % 2 == 0 && w <= 8 {
+                    t.push((c / k) | (1 << (8 * w - 1)));
+                }
+            }
+            t
+        }
+        BinOpType::IntLeft => vec![c >> (k % 64), (c >> (k % 64)) | (1 << (8 * w - 1)), (c >> (k % 64)).wrapping_add(1), c],
+        BinOpType::IntRight | BinOpType::IntSRight => {
+            vec![c << (k % 64), (c << (k % 64)) | 1, (c << (k % 64)) | ((1 << (k % 64)) - 1), (c << (k % 64)).wrapping_add(1 << (k % 64)), c]
+        }
+        _ => vec![c],
+    };
+    v.push(rng.next());
+    v.into_iter().map(|x| x & m).collect()
+}
+
 /// the register itself, or its low `w` bytes
 fn cmp_operand(reg: &str, w: u64) -> Expression {
     if w == 8 {
@@ -690,27 +782,87 @@ fn collect_cmps(e: &Expression, acc: &mut Vec<(String, u64, u64)>) {
     }
 }
 
+/// `(register, register size, candidate value, operand width)` for every comparison `(x OP k) cmp c` / `c cmp (x OP k)`
+/// of a (truncated) register, and for bare bitwise operations `x OP k`
+fn collect_nested(rng: &mut Rng, e: &Expression, acc: &mut Vec<(String, u64, u64, u64)>) {
+    fn operand(e: &Expression) -> Option<(String, u64, u64)> {
+        match e {
+            Expression::Var(v) => Some((v.name.clone(), u64::from(v.size), u64::from(v.size))),
+            Expression::Subpiece { low_byte, size, arg } if *low_byte == ByteSize::new(0) => match &**arg {
+                Expression::Var(v) => Some((v.name.clone(), u64::from(v.size), u64::from(*size))),
+                _ => None,
+            },
+            _ => None,
+        }
+    }
+    if let Expression::BinOp { op, lhs, rhs } = e {
+        if CMP_OPS.contains(op) {
+            for (x, c) in [(&**lhs, &**rhs), (&**rhs, &**lhs)] {
+                if let (Expression::BinOp { op: inner, lhs: a, rhs: b }, Expression::Const(cv)) = (x, c) {
+                    if let (Some((r, vs, w)), Expression::Const(kv), Ok(cval)) = (operand(a), &**b, cv.try_to_u64()) {
+                        if let Ok(k) = kv.try_to_u64() {
+                            for cand in nest_candidates(rng, *inner, k, cval, w) {
+                                acc.push((r.clone(), vs, cand, w));
+                            }
+                        }
+                    }
+                }
+            }
+        }
+        // a bare bitwise condition `x & k`
+        if NEST_OPS.contains(op) {
+            if let (Some((r, vs, w)), Expression::Const(kv)) = (operand(lhs), &**rhs) {
+                if let Ok(k) = kv.try_to_u64() {
+                    for c in [0u64, 1, k] {
+                        for cand in nest_candidates(rng, *op, k, c, w) {
+                            acc.push((r.clone(), vs, cand, w));
+                        }
+                    }
+                }
+            }
+        }
+        collect_nested(rng, lhs, acc);
+        collect_nested(rng, rhs, acc);
+    } else if let Expression::UnOp { arg, .. } | Expression::Cast { arg, .. } | Expression::Subpiece { arg, .. } = e {
+        collect_nested(rng, arg, acc);
+    }
+}
+
 /// initial register values for the concrete runs, biased so that both outcomes of the comparisons of the
 /// program occur: per run (2 of 3) one compared register is set to the constant, its neighbours or another
 /// boundary of the operand width (upper bytes random)
 fn inits_around_comparisons(rng: &mut Rng, project: &Project, n_runs: usize) -> Value {
     let mut cmps = Vec::new();
+    let mut nested = Vec::new();
     for s in project.program.term.subs.values() {
         for b in &s.term.blocks {
             for d in &b.term.defs {
                 if let Def::Assign { value, .. } = &d.term {
                     collect_cmps(value, &mut cmps);
+                    collect_nested(rng, value, &mut nested);
                 }
             }
             for j in &b.term.jmps {
                 if let Jmp::CBranch { condition, .. } = &j.term {
                     collect_cmps(condition, &mut cmps);
+                    collect_nested(rng, condition, &mut nested);
                 }
             }
         }
     }
     let mut runs = Vec::new();
     for _ in 0..n_runs {
+        if !nested.is_empty() && rng.chance(1, 2) {
+            // a value around the solutions of a comparison with a nested operator
+            let (reg, vs, low, w) = rng.pick(&nested).clone();
+            if vs != 8 {
+                continue;
+            }
+            let m = mask_w(w);
+            let upper = if rng.chance(1, 2) { 0 } else { rng.next() & !m };
+            runs.push(json!([[reg, 8, upper | (low & m)]]));
+            continue;
+        }
         if cmps.is_empty() || rng.chance(1, 3) {
             runs.push(json!([]));
             continue;
@@ -801,6 +953,84 @@ fn directed_cmp_project(rng: &mut Rng, op: BinOpType, const_left: bool, c: u64, 
         runs.push(json!([["RAX", 8, init]]));
     }
     (project, Value::Array(runs))
+}
+
+/// One program `b0: if ((RAX OP k) cmp c) goto bT; goto bF` (as `directed_cmp_project`), `second_reg`: `k` is held in RBX,
+/// `bare`: the condition is the 1-byte operation itself (`(AL OP k) & 1`-style boolean). Initial values of RAX: the
+/// solutions of `(x OP k) == c` and their neighbours.
+fn directed_nested_project(rng: &mut Rng, cmp: BinOpType, inner: BinOpType, k: u64, c: u64, w: u64, const_left: bool, neg: bool, second_reg: bool, bare: bool) -> (Project, Value) {
+    let m = mask_w(w);
+    let mut b0 = Vec::new();
+    let x = cmp_operand("RAX", w);
+    let second = if second_reg {
+        b0.push(d_assign("f0_b0_k", var("RBX", 8), e_const(k & m, 8)));
+        cmp_operand("RBX", w)
+    } else {
+        e_const(k & m, w)
+    };
+    let lhs = e_bin(inner, x, second);
+    let mut cond = if bare {
+        e_bin(BinOpType::IntAnd, e_bin(inner, e_sub(0, 1, e_var("RAX", 8)), e_const(k & 0xff, 1)), e_const(1, 1))
+    } else if const_left {
+        e_bin(cmp, e_const(c & m, w), lhs)
+    } else {
+        e_bin(cmp, lhs, e_const(c & m, w))
+    };
+    if bare && inner == BinOpType::IntAnd {
+        cond = e_bin(BinOpType::IntAnd, e_sub(0, 1, e_var("RAX", 8)), e_const(1, 1));
+    }
+    if neg {
+        cond = e_un(UnOpType::BoolNegate, cond);
+    }
+    let blocks = vec![
+        blk("f0_b0", b0, vec![j_cbranch("f0_b0_j0", "f0_bT", cond), j_branch("f0_b0_j1", "f0_bF")]),
+        blk("f0_bT", vec![d_assign("f0_bT_u", var("RCX", 8), e_bin(BinOpType::IntAdd, e_var("RAX", 8), e_const(1, 8)))], vec![j_branch("f0_bT_j0", "f0_b3")]),
+        blk("f0_bF", vec![d_assign("f0_bF_u", var("RDX", 8), e_bin(BinOpType::IntSub, e_var("RAX", 8), e_const(1, 8)))], vec![j_branch("f0_bF_j0", "f0_b3")]),
+        blk("f0_b3", vec![], vec![j_return("f0_b3_j0", Expression::Var(tmp("$ret", 8)))]),
+    ];
+    let project = project_x64(program(vec![sub("f0", "fn0", blocks, None)], vec![], vec![tid("f0")]));
+    let mut runs = Vec::new();
+    let ww = if bare { 1 } else { w };
+    let mm = mask_w(ww);
+    let cs: Vec<u64> = if bare { vec![0, 1] } else { vec![c] };
+    for cc in cs {
+        for t in nest_candidates(rng, inner, k & mm, cc & mm, ww) {
+            let upper = if ww == 8 || rng.chance(1, 2) { 0 } else { rng.next() & !mm };
+            runs.push(json!([["RAX", 8, upper | (t & mm)]]));
+        }
+    }
+    (project, Value::Array(runs))
+}
+
+/// the directed always-run set for nested operators: operator × (k, c) pair × comparison × orientation / negation /
+/// second operand in a register / bare 1-byte condition, thinned by `stride`
+fn gen_directed_nested(rng: &mut Rng, out: &mut Out, stride: u64) {
+    let mut idx = 0u64;
+    for inner in NEST_OPS {
+        for (k, c) in nest_pairs(inner) {
+            for cmp in CMP_OPS {
+                for variant in 0..4u64 {
+                    idx += 1;
+                    if idx % stride != 0 {
+                        continue;
+                    }
+                    let w = *rng.pick(&[8u64, 8, 4, 1]);
+                    let is_shift = matches!(inner, BinOpType::IntLeft | BinOpType::IntRight | BinOpType::IntSRight);
+                    let (const_left, neg, second_reg) = match variant {
+                        0 => (false, false, false),
+                        1 => (true, false, false),
+                        2 => (false, true, false),
+                        _ => (false, false, !is_shift),
+                    };
+                    let bare = idx % 23 == 0 && matches!(inner, BinOpType::IntAnd | BinOpType::IntXOr | BinOpType::IntOr);
+                    let (project, inits) = directed_nested_project(rng, cmp, inner, k, c, w, const_left, neg, second_reg, bare);
+                    let seeds: Vec<u64> = inits.as_array().unwrap().iter().map(|_| rng.next() >> 12).collect();
+                    out.count("gen:directed-nested-comparison");
+                    emit_pi(out, &project, &seeds, &inits);
+                }
+            }
+        }
+    }
 }
 
 /// the directed always-run set: every operator × orientation × boundary constant × width × negation
@@ -1981,7 +2211,7 @@ fn eval_sc(pi: &'static PointerInference<'static>, init: &Value, cond: &Expressi
     }
 }
 
-fn emit_sc(out: &mut Out, pi: &'static PointerInference<'static>, init: &Value, cond: &Expression, is_true: bool, seed: u64) {
+fn emit_sc(out: &mut Out, pi: &'static PointerInference<'static>, init: &Value, cond: &Expression, is_true: bool, seed: u64, hints: &[Value]) {
     let r = eval_sc(pi, init, cond, is_true);
     if r.is_string() {
         out.count("sc:panic");
@@ -1991,7 +2221,7 @@ fn emit_sc(out: &mut Out, pi: &'static PointerInference<'static>, init: &Value, 
         out.count("sc:specialised");
     }
     let cj = serde_json::to_value(cond).unwrap();
-    let line = json!({"q": "sc", "init": init, "cond": cj, "is_true": is_true, "seed": seed, "sid": stack_id_index(), "gid": global_id_index(), "impl": r}).to_string();
+    let line = json!({"q": "sc", "init": init, "cond": cj, "is_true": is_true, "seed": seed, "sid": stack_id_index(), "gid": global_id_index(), "hints": hints, "impl": r}).to_string();
     let key = format!("{}|{}|{}", init, cj, is_true);
     // non-trivial: the state changed (or became unsatisfiable)
     let before = catch({
@@ -2047,7 +2277,7 @@ fn gen_sc(rng: &mut Rng, out: &mut Out, pi: &'static PointerInference<'static>) 
             }
         }
     }
-    let init = json!({"regs": regs, "globals": globals, "extra": [], "stack_unique": !rng.chance(1, 10)});
+    let stack_unique = !rng.chance(1, 10);
 
     // an operand of `size` bytes: a register, or a constant next to the bounds of the other operand
     let reg_operand = |rng: &mut Rng, size: u64| -> (Expression, Option<Value>) {
@@ -2100,7 +2330,60 @@ fn gen_sc(rng: &mut Rng, out: &mut Out, pi: &'static PointerInference<'static>) 
             _ => e_bin(op, x.clone(), x),
         }
     };
-    let cond = match rng.below(20) {
+    // `(x OP k) cmp c` / `(x OP y) cmp c`: bitwise, arithmetic and shift operators inside the comparison
+    let nested = |rng: &mut Rng| -> Expression {
+        let op = op_from_name::<BinOpType>(*rng.pick(&CMP6));
+        let inner = *rng.pick(&NEST_OPS);
+        let size = *rng.pick(&[8u64, 8, 4, 1]);
+        let (x, xd) = reg_operand(rng, size);
+        let x = if size < 8 && rng.chance(1, 3) { e_sub(0, size, e_var(*rng.pick(&["RAX", "RBX", "RCX", "RDX"]), 8)) } else { x };
+        let (k, c) = *rng.pick(&nest_pairs(inner));
+        let is_shift = matches!(inner, BinOpType::IntLeft | BinOpType::IntRight | BinOpType::IntSRight);
+        let second = if rng.chance(1, 5) && !is_shift {
+            reg_operand(rng, size).0
+        } else if rng.chance(1, 8) {
+            const_near(rng, size, &None)
+        } else {
+            e_const(k & mask_w(size), size)
+        };
+        let lhs = if rng.chance(1, 8) && !is_shift { e_bin(inner, second, x) } else { e_bin(inner, x, second) };
+        let cst = if rng.chance(1, 6) { const_near(rng, size, &xd) } else { e_const(c & mask_w(size), size) };
+        if rng.chance(1, 2) {
+            e_bin(op, lhs, cst)
+        } else {
+            e_bin(op, cst, lhs)
+        }
+    };
+    let cond = match rng.below(26) {
+        20..=22 => {
+            let e = nested(rng);
+            if rng.chance(1, 4) {
+                e_un(UnOpType::BoolNegate, e)
+            } else {
+                e
+            }
+        }
+        23 => {
+            // a bare 1-byte bitwise operation as condition
+            let x = if rng.chance(1, 2) { e_sub(0, 1, e_var(*rng.pick(&["RAX", "RBX", "RCX", "RDX"]), 8)) } else { reg_operand(rng, 1).0 };
+            let op = *rng.pick(&[BinOpType::IntAnd, BinOpType::IntAnd, BinOpType::IntOr, BinOpType::IntXOr]);
+            let y = if rng.chance(1, 3) { reg_operand(rng, 1).0 } else { e_const(*rng.pick(&[1u64, 1, 0, 3, 0xff, 4]), 1) };
+            let e = e_bin(op, x, y);
+            if rng.chance(1, 3) {
+                e_bin(BinOpType::IntAnd, e, e_const(1, 1))
+            } else {
+                e
+            }
+        }
+        24 => {
+            let op = *rng.pick(&[BinOpType::BoolAnd, BinOpType::BoolOr]);
+            if rng.chance(1, 2) {
+                e_bin(op, nested(rng), cmp(rng))
+            } else {
+                e_bin(op, nested(rng), nested(rng))
+            }
+        }
+        25 => gen_ev_expr(rng, 1, 2, &globals),
         0..=9 => cmp(rng),
         10..=12 => e_un(UnOpType::BoolNegate, cmp(rng)),
         13 => e_un(UnOpType::BoolNegate, e_un(UnOpType::BoolNegate, cmp(rng))),
@@ -2140,8 +2423,93 @@ fn gen_sc(rng: &mut Rng, out: &mut Out, pi: &'static PointerInference<'static>) 
         }
         _ => gen_ev_expr(rng, 1, 2, &globals),
     };
+    // concrete register values around the solutions of nested comparisons (the driver uses those inside γ of
+    // the register's value); half of the time the register's value is replaced by one that contains some of them
+    let mut nest = Vec::new();
+    collect_nested(rng, &cond, &mut nest);
+    let mut hints: Vec<Value> = Vec::new();
+    for (name, vs, low, w) in nest.iter().take(64) {
+        let m = mask_w(*w);
+        let upper = if vs == w || rng.chance(1, 2) { 0 } else { rng.next() & !m & mask_w(*vs) };
+        hints.push(json!([name, vs, upper | (low & m)]));
+    }
+    if !nest.is_empty() && rng.chance(1, 2) {
+        let (name, vs, _, w) = nest[0].clone();
+        let lows: Vec<i64> = nest.iter().filter(|n| n.0 == name && n.2 < 0x10000).map(|n| n.2 as i64).collect();
+        let d = match rng.below(4) {
+            0 => None,
+            1 => Some(abs_data(vs, 0, if vs == 1 { 0x7f } else { 0xfff }, 1)),
+            2 if vs > 1 => Some(abs_data(vs, -0x100, 0x1ff, 1)),
+            _ => {
+                let lo = lows.iter().copied().min().unwrap_or(0);
+                let hi = lows.iter().copied().max().unwrap_or(16);
+                let cap = smax_b(8 * vs) as i64;
+                Some(abs_data(vs, (lo - rng.below(3) as i64).min(cap), (hi + rng.below(3) as i64).min(cap), 1))
+            }
+        };
+        let _ = w;
+        regs.retain(|r| r[0] != Value::String(name.clone()));
+        if let Some(d) = d {
+            regs.push(json!([name, vs, d]));
+        }
+    }
+    let init = json!({"regs": regs, "globals": globals, "extra": [], "stack_unique": stack_unique});
     let seed = rng.next() >> 12;
-    emit_sc(out, pi, &init, &cond, rng.chance(1, 2), seed);
+    emit_sc(out, pi, &init, &cond, rng.chance(1, 2), seed, &hints);
+}
+
+/// the directed always-run set of the "sc" stream: `(x OP k) cmp c` for every nested operator × (k, c) pair ×
+/// comparison × orientation × truth value of the branch, `x` a register whose value is unknown, a wide interval or
+/// a short interval around the solutions; every case carries the solutions of `(x OP k) == c` and their neighbours
+/// as proposed concrete values. Thinned by `stride`.
+fn gen_sc_directed(rng: &mut Rng, out: &mut Out, pi: &'static PointerInference<'static>, stride: u64) {
+    let sid = stack_id_index();
+    let mut idx = 0u64;
+    for inner in NEST_OPS {
+        for (k, c) in nest_pairs(inner) {
+            for cmp in CMP_OPS {
+                for variant in 0..4u64 {
+                    idx += 1;
+                    if idx % stride != 0 {
+                        continue;
+                    }
+                    let (const_left, is_true) = (variant & 1 == 1, variant & 2 == 2);
+                    let w = *rng.pick(&[8u64, 8, 4, 1]);
+                    let m = mask_w(w);
+                    let (name, x) = match w {
+                        8 => ("RAX", e_var("RAX", 8)),
+                        4 => ("E4A", e_var("E4A", 4)),
+                        _ => ("B1A", e_var("B1A", 1)),
+                    };
+                    let lhs = e_bin(inner, x, e_const(k & m, w));
+                    let mut cond = if const_left { e_bin(cmp, e_const(c & m, w), lhs) } else { e_bin(cmp, lhs, e_const(c & m, w)) };
+                    if idx % 7 == 0 {
+                        cond = e_un(UnOpType::BoolNegate, cond);
+                    }
+                    if idx % 31 == 0 && w == 1 {
+                        // the bare 1-byte operation
+                        cond = e_bin(inner, e_var("B1A", 1), e_const(k & m, 1));
+                    }
+                    let cands = nest_candidates(rng, inner, k & m, c & m, w);
+                    let hints: Vec<Value> = cands.iter().map(|v| json!([name, w, v])).collect();
+                    let mut regs = vec![json!(["RSP", 8, ptr_data(sid, -16)])];
+                    let small: Vec<i64> = cands.iter().filter(|v| **v < 0x80).map(|v| *v as i64).collect();
+                    match rng.below(3) {
+                        0 => {}
+                        1 => regs.push(json!([name, w, abs_data(w, 0, if w == 1 { 0x7f } else { 0xfff }, 1)])),
+                        _ => {
+                            let lo = small.iter().copied().min().unwrap_or(0);
+                            let hi = small.iter().copied().max().unwrap_or(16);
+                            regs.push(json!([name, w, abs_data(w, (lo - 1).max(if w == 1 { -128 } else { -4096 }), (hi + 1).min(0x7f), 1)]));
+                        }
+                    }
+                    let init = json!({"regs": regs, "globals": [], "extra": [], "stack_unique": true});
+                    out.count("gen:sc-directed-nested");
+                    emit_sc(out, pi, &init, &cond, is_true, rng.next() >> 12, &hints);
+                }
+            }
+        }
+    }
 }
 
 fn return_cast(rng: &mut Rng, y: Expression, size: u64) -> Expression {
@@ -2376,7 +2744,7 @@ fn main() {
                 emit_ms(&mut out, pi, &v["init"], &defs, v["seed"].as_u64().unwrap_or(1));
             } else if v["q"] == "sc" {
                 let cond: Expression = serde_json::from_value(v["cond"].clone()).expect("condition");
-                emit_sc(&mut out, pi, &v["init"], &cond, v["is_true"].as_bool().unwrap(), v["seed"].as_u64().unwrap_or(1));
+                emit_sc(&mut out, pi, &v["init"], &cond, v["is_true"].as_bool().unwrap(), v["seed"].as_u64().unwrap_or(1), v["hints"].as_array().map(|a| a.as_slice()).unwrap_or(&[]));
             } else if v["q"] == "dd" {
                 emit_dd(&mut out, &v["op"], &v["a"], &v["b"]);
             } else if v["q"] == "ev" {
@@ -2414,6 +2782,8 @@ fn main() {
     // directed comparison programs: always the same set, in every tier
     let stride = args.num("cmpstride", 1, 1);
     gen_directed_cmps(&mut rng, &mut out, stride);
+    let nstride = args.num("neststride", 2, 1);
+    gen_directed_nested(&mut rng, &mut out, nstride);
     let n_null = args.num("nullchecks", 600, 20000);
     for _ in 0..n_null {
         gen_null(&mut rng, &mut out);
@@ -2430,6 +2800,8 @@ fn main() {
     for _ in 0..n_ms {
         gen_ms(&mut rng, &mut out, pi);
     }
+    let sc_stride = args.num("scstride", 1, 1);
+    gen_sc_directed(&mut rng, &mut out, pi, sc_stride);
     let n_sc = args.num("conds", 4000, 120000);
     for _ in 0..n_sc {
         gen_sc(&mut rng, &mut out, pi);
